@@ -103,7 +103,7 @@ type Sim struct {
 	nextRecv map[string]uint64
 	nextAck  map[string]uint64
 	// C11: ack keys seen
-	ackKeys [2]map[string][]byte
+	ackKeys   [2]map[string][]byte
 	otherViol int
 	forceTH   *clienttypes.Height
 	forceTT   *uint64
@@ -132,7 +132,9 @@ type SimOpts struct {
 	SameChannelIDs bool
 }
 
-func AllLanes() SimOpts { return SimOpts{Ordered: true, Unordered: true, Transfer: true, V2: true, Alias: true} }
+func AllLanes() SimOpts {
+	return SimOpts{Ordered: true, Unordered: true, Transfer: true, V2: true, Alias: true}
+}
 
 // NewSim builds two chains and the requested lanes.
 func NewSim(c *kit.Check, r *kit.Rng, o SimOpts) *Sim {
